@@ -40,7 +40,9 @@ SPEC = dict(
                   "checked differentially against a hand-written encoder and an independent decoder",
                   "httptest / gorilla mux URL vars to call the real handlers; config.MockConfig",
                   "Go map iteration order on /1/events: an acceptor input (the oracle accepts an outcome iff some order of the model produces it)"],
-    assumptions=["theorems assume a sane configuration: no configured trace-ID / parent-ID / sampling-key field name is one of the reserved "
+    assumptions=["the model carries one flag per repair of types/payload.go (Model/Payload.lean `Fixed`, `fixedNow`); the oracle runs the flagged "
+                 "variants, which are the unrepaired functions when no flag is set; `*_fixed` theorems state the full property for the repaired variants",
+                 "theorems assume a sane configuration: no configured trace-ID / parent-ID / sampling-key field name is one of the reserved "
                  "metadata names, and (root_iff) no name is both a trace-ID and a parent-ID name; unique keys per event",
                  "root_iff / belongs_iff speak about client events, i.e. events that do not themselves carry meta.refinery.root or meta.refinery.probe",
                  "strings are opaque tokens in the model (the harness percent-encodes them injectively); only reserved names, the prefix "
